@@ -16,6 +16,8 @@ CONSTANTS
     MaxSpans = 3
     IncomingKinds <- MC_None
     WithLazy = TRUE
+    WithCancel = TRUE
+    CancelOwnIds = FALSE
     CtxForms <- MC_Forms
     Emit = TRUE
 VIEW sview
